@@ -673,12 +673,16 @@ func formatTimezone(t time.Time, marker *variableMarker, prefixed bool) (string,
 
 func formatTimezoneShort(h int, m int, layout string) (string, error) {
 
-	tz, err := formatInteger(h, layout)
+	// The sign belongs to the whole offset: hours are zero for
+	// offsets between -0059 and -0001.
+	tz, err := formatInteger(abs(h), layout)
 	if err != nil {
 		return "", err
 	}
 
-	if h >= 0 {
+	if h < 0 || m < 0 {
+		tz = "-" + tz
+	} else {
 		tz = "+" + tz
 	}
 
@@ -691,12 +695,14 @@ func formatTimezoneShort(h int, m int, layout string) (string, error) {
 
 func formatTimezoneLong(h int, m int, layout string) (string, error) {
 
-	tz, err := formatInteger(h*100+m, layout)
+	tz, err := formatInteger(abs(h)*100+abs(m), layout)
 	if err != nil {
 		return "", err
 	}
 
-	if h >= 0 {
+	if h < 0 || m < 0 {
+		tz = "-" + tz
+	} else {
 		tz = "+" + tz
 	}
 
@@ -705,7 +711,9 @@ func formatTimezoneLong(h int, m int, layout string) (string, error) {
 
 func formatTimezoneSplit(h int, layoutH string, m int, layoutM string, separator string) (string, error) {
 
-	hh, err := formatInteger(h, layoutH)
+	// The sign belongs to the whole offset: hours are zero for
+	// offsets between -0059 and -0001.
+	hh, err := formatInteger(abs(h), layoutH)
 	if err != nil {
 		return "", err
 	}
@@ -717,7 +725,9 @@ func formatTimezoneSplit(h int, layoutH string, m int, layoutM string, separator
 
 	tz := hh + separator + mm
 
-	if h >= 0 {
+	if h < 0 || m < 0 {
+		tz = "-" + tz
+	} else {
 		tz = "+" + tz
 	}
 
